@@ -552,8 +552,8 @@ func runImpl(op, s string) string {
 
 // runRef executes op on the RFC reference parser; ("", false) when the op has no
 // container-level reference (consume* ops are D-tied only).
-func runRef(op, s string, q quirks) (string, bool) {
-	p := &ref{s: s, q: q}
+func runRef(op, s string) (string, bool) {
+	p := &ref{s: s}
 	switch op {
 	case "item":
 		bi, ok := p.bareItem()
@@ -593,47 +593,16 @@ func runRef(op, s string, q quirks) (string, bool) {
 	return "", false
 }
 
-const (
-	sigTab    = "C56:htab-accepted-where-rfc-allows-only-sp"
-	sigParen  = "C56:unterminated-inner-list-accepted"
-	sigComma  = "C56:dictionary-members-without-comma-accepted"
-	sigFFFD   = "C56:display-string-with-U+FFFD-rejected"
-	sigOther  = ""
-)
-
 func oracleContainer(op, s, got string, o *vu.Out) {
-	want, has := runRef(op, s, noQuirks)
-	if !has {
+	want, has := runRef(op, s)
+	if !has || got == want {
 		return
 	}
-	if got == want {
-		return
-	}
-	if all, _ := runRef(op, s, allQuirks); all != got {
-		o.Fail(sigOther, fmt.Sprintf("%s(%q): package says %q, RFC 9651 reference says %q (not explained by the known deviations)", op, s, got, want))
-		return
-	}
-	type qs struct {
-		q   quirks
-		sig string
-	}
-	n := 0
-	for _, c := range []qs{
-		{quirks{false, true, true, true}, sigTab}, {quirks{true, false, true, true}, sigParen},
-		{quirks{true, true, false, true}, sigComma}, {quirks{true, true, true, false}, sigFFFD}} {
-		if without, _ := runRef(op, s, c.q); without != got {
-			o.Fail(c.sig, fmt.Sprintf("%s(%q): package says %q, RFC 9651 says %q", op, s, got, want))
-			o.Stat("deviation:" + c.sig)
-			n++
-		}
-	}
-	if n == 0 {
-		o.Fail(sigOther, fmt.Sprintf("%s(%q): package says %q, RFC says %q (unattributed)", op, s, got, want))
-	}
+	o.Fail("", fmt.Sprintf("%s(%q): package says %q, RFC 9651 reference says %q", op, s, got, want))
 }
 
 func oracleBare(op, s, got string, o *vu.Out) {
-	p := &ref{s: s, q: noQuirks}
+	p := &ref{s: s}
 	want := "err"
 	switch op {
 	case "int":
@@ -689,14 +658,6 @@ func oracleBare(op, s, got string, o *vu.Out) {
 	}
 	if got == want {
 		return
-	}
-	if op == "dstr" {
-		q := &ref{s: s, q: quirks{fffd: true}}
-		if _, _, ok := q.displayString(); got == "err" && !(ok && q.eof()) {
-			o.Fail(sigFFFD, fmt.Sprintf("ParseDisplayString(%q) rejected; RFC 9651 value is %s", s, want))
-			o.Stat("deviation:" + sigFFFD)
-			return
-		}
 	}
 	o.Fail("", fmt.Sprintf("%s(%q): package says %q, RFC 9651 reference says %q", op, s, got, want))
 }
